@@ -463,26 +463,45 @@ def history_case(case, rec):
     border = Border(2.0, RGB(1, 2, 3), "solid")
     hot = [(rng.randrange(R), rng.randrange(C)) for _ in range(3)]  # positions asked for again and again
     log = []
+    mR, mC = R, C  # the shape the table must have: kept by the check from the operations made, not read from the table
+    emptied = rng.random() < .15
     for step in range(case["steps"]):
         k = rng.random()
-        R, C = tb.num_rows, tb.num_cols
+        for t in (ta, tb):
+            if (t.num_rows, t.num_cols) != (mR, mC):
+                rec.violation("shape_after_history", {"twin": "a1" if t is ta else "rowcol", "rows_ok": t.num_rows == mR, "cols_ok": t.num_cols == mC, "emptied": mR == 0},
+                              {"want": [mR, mC], "got": [t.num_rows, t.num_cols], "log": log[-8:]}, case=case)
+                return
+        R, C = mR, mC
         if k < .3 and step:
-            which = rng.choice(["add_row", "delete_row", "add_column", "delete_column", "merge"])
+            which = rng.choice(["add_row", "delete_row", "add_column", "delete_column", "merge"] + (["delete_all_rows"] if emptied and R else []))
             try:
                 with warnings.catch_warnings():
                     warnings.simplefilter("ignore")
                     if which == "add_row":
-                        kw = {"num_rows": rng.randint(1, 2), "start_row": rng.randrange(R)}
+                        kw = {"num_rows": rng.randint(1, 2), **({"start_row": rng.randrange(R)} if R else {})}
                         ta.add_row(**kw); tb.add_row(**kw)
+                        mR += kw["num_rows"]
                     elif which == "delete_row" and R > 3:
                         kw = {"num_rows": 1, "start_row": rng.choice([0, R - 1, rng.randrange(R)])}
                         ta.delete_row(**kw); tb.delete_row(**kw)
+                        mR -= 1
+                    elif which == "delete_all_rows":
+                        # every row goes; the columns stay what they are and can still be removed or added
+                        kw = {"num_rows": R}
+                        ta.delete_row(**kw); tb.delete_row(**kw)
+                        mR = 0
+                        rec.count("history_tables_emptied")
                     elif which == "add_column":
                         kw = {"num_cols": 1, "start_col": rng.randrange(C)}
                         ta.add_column(**kw); tb.add_column(**kw)
-                    elif which == "delete_column" and C > 3:
-                        kw = {"num_cols": 1, "start_col": rng.choice([0, C - 1, rng.randrange(C)])}
+                        mC += 1
+                    elif which == "delete_column" and C > (3 if R else 1):
+                        kw = {"num_cols": rng.randint(1, 2) if not R and C > 2 else 1, "start_col": rng.choice([0, C - 1, rng.randrange(C)])}
+                        if kw["num_cols"] > 1:
+                            kw["start_col"] = min(kw["start_col"], C - kw["num_cols"])
                         ta.delete_column(**kw); tb.delete_column(**kw)
+                        mC -= kw["num_cols"]
                     else:
                         continue
                 log.append([which, kw])
@@ -491,9 +510,12 @@ def history_case(case, rec):
                 rec.note(f"C11 history: structural op raised {type(e).__name__}")
                 return
             continue
-        r, c = rng.choice(hot) if rng.random() < .6 else (rng.randrange(R), rng.randrange(C))
+        r, c = rng.choice(hot) if rng.random() < .6 or not R or not C else (rng.randrange(R), rng.randrange(C))
         if r >= R or c >= C:
-            method = "cell"  # outside now: both forms must raise IndexError
+            # outside now: a read in either form must raise IndexError; a write (inside the limits) grows the table to exactly the size needed
+            method = "write" if rng.random() < .3 else "cell"
+            if method == "write":
+                rec.count("history_growing_writes")
         else:
             method = rng.choice(["cell", "cell", "write", "style", "format", "border"])
         # the A1 twin spells the position with any of the four '$' forms (a repeated position keeps turning up in all of them)
@@ -534,11 +556,16 @@ def history_case(case, rec):
         if method == "cell" and oa[0] == "ok" and (oa[1], oa[2]) != (r, c):
             rec.violation("cell_reports_other_position", fx, {"pos": [r, c], "got": list(oa), "log": log[-8:]}, case=case)
             return
-        if r >= R or c >= C:
+        if (r >= R or c >= C) and method == "cell":
             if oa[0] != "IndexError":
                 rec.violation("position_not_rejected", {**fx, "outcome": oa[0]}, {"pos": [r, c], "shape": [R, C], "log": log[-8:]}, case=case)
                 return
             continue
+        if (r >= R or c >= C) and method == "write":
+            if oa[0] != "ok":
+                rec.violation("growing_write_refused", {**fx, "outcome": oa[0], "emptied": R == 0}, {"pos": [r, c], "shape": [R, C], "got": list(oa), "log": log[-8:]}, case=case)
+                return
+            mR, mC = max(mR, r + 1), max(mC, c + 1)
         if oa[0] == "ok" and method in ("write", "border", "style"):
             # the addressed cell - the one cell(r, c) returns - carries what was just done, on both twins
             for t in (ta, tb):
